@@ -63,6 +63,10 @@ Consume ==
        [] e.e = "Killed" -> phase' = "dead" /\ UNCHANGED <<rej, cur, ops, snaps, opj, exists, probes, curProbe, preMax, tokName, nexec, judged>>
        [] e.e = "Files" -> Reject(FilesWhy(e)) /\ UNCHANGED <<cur, ops, snaps, opj, phase, exists, probes, curProbe, preMax, tokName, nexec, judged>>
        [] e.e = "Start" /\ phase = "dead" -> phase' = "restart" /\ UNCHANGED <<rej, cur, ops, snaps, opj, exists, probes, curProbe, preMax, tokName, nexec, judged>>
+       [] e.e = "Sent" /\ phase = "run" /\ e.tok \in DOMAIN tokName ->          \* handed to the network: sent, whether or not the process lives to see it arrive
+            LET nm == ops[tokName[e.tok]].name IN
+            /\ preMax' = Put(preMax, nm, IF nm \in DOMAIN preMax THEN Max(preMax[nm], e.obs) ELSE e.obs)
+            /\ UNCHANGED <<rej, cur, ops, snaps, opj, phase, exists, probes, curProbe, tokName, nexec, judged>>
        [] e.e \in {"Notif", "Reply"} /\ e.obs >= 0 /\ e.tok \in DOMAIN tokName ->
             LET nm == ops[tokName[e.tok]].name IN
             IF phase = "run"
